@@ -730,6 +730,9 @@ class Dict(_instance_base.Instance, mixin.HasSlots, mixin.PythonDict):
       other_dict: Union["Dict", dict[str, cfg.Variable], _base.BaseValue],
       omit: tuple[str, ...] = (),
   ) -> None:
+    # update() only adds to the dictionary: keep what it already contains.
+    self.rebind_instance_type_parameter(node, abstract_utils.K)
+    self.rebind_instance_type_parameter(node, abstract_utils.V)
     if isinstance(other_dict, (Dict, dict)):
       for key, value in other_dict.items():
         if key not in omit:
